@@ -22,7 +22,7 @@ def cross_reference(pid):
     env["CARGO_NET_OFFLINE"] = "true"
     env.pop("RUSTUP_TOOLCHAIN", None)
     tgt = os.path.join(facts.CACHE, "target-clippy")
-    cmd = ["cargo", "+nightly", "clippy", "--offline", "--lib", "--message-format=json", "--", "-Aclippy::all", "-Awarnings"]
+    cmd = ["cargo", "+nightly", "clippy", "--offline", "--lib", "--message-format=json", "--", "-Aclippy::all"]
     for l in lints:
         cmd += ["-W", l]
     env["CARGO_TARGET_DIR"] = tgt
